@@ -11,6 +11,6 @@ CONSTANTS
   NH = 1
   MaxBytes = 8
 INVARIANTS TypeOK
-PROPERTIES Conforms BlockMeaning Accepts Ordered
+PROPERTIES Conforms BlockMeaning Accepts RunMeaning Ordered
 VIEW View
 CHECK_DEADLOCK FALSE
